@@ -98,7 +98,9 @@ def cases_for(tier):
     seed = {"tlist": "1,3", "seed": str(common.SEED)}
     if tier == "thorough":
         return ol.lattice([7, 9, 11, 13, 17], [4, 8, 12, 16, 20, 24, 32], "geo,A11,ES", tier, need_nt4=True, need_odd_nr=True,
-                          min_circles=3, auto_min_nr=7, cycle_offsets=(0, 1, 2), extra=seed)
+                          min_circles=3, auto_min_nr=7, cycle_offsets=(0, 1, 2), extra=seed) + \
+            ol.full_block([7, 9], [4, 8, 12], "geo,A11,ES", tier, need_nt4=True, need_odd_nr=True, min_circles=3, auto_min_nr=7,
+                          extra=seed)
     return ol.lattice([7, 9, 11], [4, 8, 12, 16], "geo,A11,ES", tier, need_nt4=True, need_odd_nr=True, min_circles=3,
                       auto_min_nr=7, cycle_offsets=(0, 1), extra=seed)
 
